@@ -287,3 +287,110 @@ def fixed_offset_part(acc, fmt, how):
         if n % 97 == 1:
             acc.sample(case)
     acc.exhaustive['fixed-offset date-times: %d offsets x %d instants' % (len(FIXED_OFFSETS), len(FIXED_INSTANTS))] = True
+
+
+# ---------------------------------------------------------------------------------------------------------------------
+# results are independent of each other: what a caller does with one parsed grid must not change a later parse
+
+def scribble(v, depth=0):
+    """overwrite / extend every mutable part of a parsed value in place (what a caller is free to do with *its* result)"""
+    import hszinc
+    if depth > 6:
+        return
+    if isinstance(v, hszinc.Grid):
+        for k in list(v.metadata.keys()):
+            scribble(v.metadata[k], depth + 1)
+        v.metadata['zzScribble'] = 'scribbled'
+        for c in list(v.column.keys()):
+            cm = v.column[c]
+            if hasattr(cm, 'keys'):
+                for k in list(cm.keys()):
+                    scribble(cm[k], depth + 1)
+                try:
+                    cm['zzScribble'] = hszinc.MARKER
+                except Exception:      # noqa - a read-only column-metadata object cannot be scribbled on, fine
+                    pass
+        cols = list(v.column.keys())
+        for row in v:
+            for k in list(row.keys()):
+                scribble(row[k], depth + 1)
+                row[k] = 'scribbled'
+            if cols:
+                row[cols[-1]] = 12345.5
+    elif isinstance(v, list):
+        for x in v:
+            scribble(x, depth + 1)
+        v.append('scribbled')
+        v.insert(0, 12345.5)
+    elif isinstance(v, dict):
+        for k in list(v.keys()):
+            scribble(v[k], depth + 1)
+            v[k] = 'scribbled'
+        v['zzScribble'] = 12345.5
+
+
+def check_independent_results(case, fmt):
+    """case = {'kind': 'scribble', 'grids': [grid models], 'single': bool}
+    parse(dump(g)) is g - also the second time, after the caller has modified the first result (and the dumped grid) in
+    place.  Results sharing structure with each other or with a table inside the library fail this."""
+    import hszinc
+    ms = case['grids']
+    single = case['single']
+    mode = hszinc.MODE_ZINC if fmt == 'zinc' else hszinc.MODE_JSON
+    want = [model.normalise(m) for m in ms]
+
+    def rt_once(stage, gs=None):
+        gs = gs if gs is not None else [model.from_model(m) for m in ms]
+        txt = guarded('dump-raises' + stage, case, hszinc.dump, gs[0] if single else gs, mode=mode)
+        back = guarded('parse-raises' + stage, case, hszinc.parse, txt, mode=mode, single=single)
+        back = [back] if single else back
+        if len(back) != len(want):
+            raise Violation('grid-count', case, '%s: dumped %d grids, parsed %d' % (stage, len(want), len(back)))
+        for i, (w, b) in enumerate(zip(want, back)):
+            d = model.diff(w, model.to_model(b), tol=(fmt == 'json'), path='grid[%d]' % i)
+            if d:
+                raise Violation('roundtrip-diff' + stage, case, '%s | text=%r' % (d, txt[:300]), (fmt, 'scribble'))
+        return gs, txt, back
+
+    gs, txt, back = rt_once('')
+    for b in back:
+        scribble(b)
+    # the same text again: a reader that hands out shared sub-objects now returns scribbled ones
+    back2 = guarded('parse-raises-after-scribble', case, hszinc.parse, txt, mode=mode, single=single)
+    back2 = [back2] if single else back2
+    for i, (w, b) in enumerate(zip(want, back2)):
+        d = model.diff(w, model.to_model(b), tol=(fmt == 'json'), path='grid[%d]' % i)
+        if d:
+            raise Violation('roundtrip-diff-after-scribble', case, 'second parse of the same text after the first result '
+                            'was modified in place: %s' % d, (fmt, 'scribble'))
+    # the dumped grids are the caller's too
+    for g in gs:
+        scribble(g)
+    rt_once('-after-scribbled-input')
+    if fmt == 'json':
+        # pre-decoded input: the result must not be made of the caller's own objects' *later* state either way round
+        obj = json.loads(txt)
+        keep = copy.deepcopy(obj)
+        back3 = guarded('parse-raises', case, hszinc.parse, obj, mode=mode, single=single)
+        back3 = [back3] if single else back3
+        for b in back3:
+            scribble(b)
+        if obj != keep:
+            raise Violation('parse-result-aliases-input', case, 'modifying the parsed grid changed the pre-decoded '
+                            'input object handed to parse()', (fmt, 'scribble'))
+
+
+def check_independent_scalar(case, fmt):
+    """case = {'kind': 'scribble-scalar', 'ver': v, 'value': model of a list/dict/grid value}"""
+    import hszinc
+    m, ver = case['value'], case['ver']
+    mode = hszinc.MODE_ZINC if fmt == 'zinc' else hszinc.MODE_JSON
+    want = model.normalise(m)
+    txt = guarded('dump-raises', case, hszinc.dump_scalar, model.from_model(m), mode=mode, version=hszinc.Version(ver))
+    for attempt in ('', '-after-scribble', '-after-second-scribble'):
+        inp = copy.deepcopy(txt)
+        back = guarded('parse-raises' + attempt, case, hszinc.parse_scalar, inp, mode=mode, version=hszinc.Version(ver))
+        d = model.diff(want, model.to_model(back), tol=(fmt == 'json'))
+        if d:
+            raise Violation('roundtrip-diff' + attempt, case, '%s | text=%r' % (d, repr(txt)[:300]), (fmt, 'scribble'))
+        scribble(back)
